@@ -584,6 +584,7 @@ type c22Job struct {
 	Scenario string      `json:"scenario,omitempty"`
 	Dispatch c22Dispatch `json:"dispatch,omitempty"`
 	Script   []string    `json:"script,omitempty"`
+	HorizonS int         `json:"horizon_s,omitempty"` // virtual seconds the delivery run may take (default 60)
 	// replay filters (part A)
 	OnlyOp    *c22Op `json:"only_op,omitempty"`
 	OnlyFault string `json:"only_fault,omitempty"`
@@ -881,6 +882,9 @@ func c22RunDeliveryJob(t *testing.T, j c22Job) (*c22Result, error) {
 		dead := map[string]c22Row{}
 		next := 0
 		horizon := 60 * time.Second
+		if j.HorizonS > 0 {
+			horizon = time.Duration(j.HorizonS) * time.Second
+		}
 		step := 100 * time.Millisecond
 		quiet := 0
 		for time.Since(start) <= horizon {
@@ -921,10 +925,7 @@ func c22RunDeliveryJob(t *testing.T, j c22Job) (*c22Result, error) {
 					}
 					if last != nil && last.Answer == "fail" {
 						delay := r.Next.Sub(last.At)
-						want := minB << (r.Attempts - 1)
-						if want > maxB || want <= 0 {
-							want = maxB
-						}
+						want := c22Backoff(minB, maxB, r.Attempts)
 						res.Outcomes[fmt.Sprintf("backoff-after-failed-attempt-%d=%s", r.Attempts, delay)]++
 						if delay < minB || delay > maxB {
 							report("backoff-outside-limits", fmt.Sprintf("entry %s after failed attempt %d: next attempt in %s, limits [%s, %s]", r.sig(), r.Attempts, delay, minB, maxB))
@@ -1016,10 +1017,7 @@ func c22RunDeliveryJob(t *testing.T, j c22Job) (*c22Result, error) {
 				res.Outcomes["retry-after-"+prev.Answer]++
 				switch prev.Answer {
 				case "fail":
-					want := minB << (prev.Attempt - 1)
-					if want > maxB || want <= 0 {
-						want = maxB
-					}
+					want := c22Backoff(minB, maxB, prev.Attempt)
 					if gap < want {
 						report("retry-before-backoff-elapsed", fmt.Sprintf("entry %s: attempt %d came %s after failed attempt %d, backoff %s", r.sig(), cur.Attempt, gap, prev.Attempt, want))
 					}
@@ -1041,6 +1039,22 @@ func c22RunDeliveryJob(t *testing.T, j c22Job) (*c22Result, error) {
 		}
 	})
 	return res, jobErr
+}
+
+// c22Backoff is the stated delay after the n-th failed attempt: MinBackoff doubled n-1 times,
+// bounded by MaxBackoff (computed without overflow for any n).
+func c22Backoff(minB, maxB time.Duration, n int) time.Duration {
+	d := minB
+	for i := 1; i < n; i++ {
+		if d >= maxB {
+			return maxB
+		}
+		d *= 2
+	}
+	if d > maxB {
+		return maxB
+	}
+	return d
 }
 
 func init() {
@@ -1153,6 +1167,19 @@ func TestC22(t *testing.T) {
 			for _, s := range c22Scripts(n, c.al) {
 				jobs = append(jobs, c22Job{Scenario: c.sc, Dispatch: c.d, Script: s})
 			}
+		}
+		// long failure runs (unlimited retries): every run length up to the bound, then success.
+		// The delay stays within the limits however often the exponent is doubled.
+		longest := 40
+		if !quick() {
+			longest = 80
+		}
+		for n := 6; n <= longest; n++ {
+			s := make([]string, n)
+			for i := range s {
+				s[i] = "fail"
+			}
+			jobs = append(jobs, c22Job{Scenario: "one-entry", Dispatch: d0, Script: s, HorizonS: 2*n + 30})
 		}
 	}
 	var anyJobs []any
